@@ -10,6 +10,9 @@ for the monitor spec/Descr/DescrTrace.tla.
           the decoded call, and the real raptor Worker._dispatch_func
   tdseq : ONE TaskDescription object: verify() / rp.Task(...) interleaved with
           changes through attributes, items, update() and in-place mutation
+  hand  : the real raptor Master.submit_workers / submit_tasks on a master
+          built with __new__ and a recording registry / publish / advance /
+          request queue: every copy of the description that leaves the master
   xfunc : payloads encoded by a real __main__ script (this module run with
           `python -m`, so that its classes and functions are those of the
           application script) and decoded + called in a fresh interpreter
@@ -205,12 +208,14 @@ class _DescrCase(object):
         for k, v in pl.items():
             fd.setdefault(k, v)
         self.obj = cls(from_dict=fd)
+        self.ignore = ()
         # what the rest of the description must stay equal to
         self.rest0 = self.rest(self.obj)
 
     def rest(self, obj):
         d = obj.as_dict() if isinstance(obj, ru.TypedDict) else ru.as_dict(obj)
-        return canon({k: v for k, v in d.items() if k not in self.attrs})
+        return canon({k: v for k, v in d.items()
+                           if k not in self.attrs and k not in self.ignore})
 
     def proj(self, obj):
         data = obj._data if isinstance(obj, ru.TypedDict) else obj
@@ -328,6 +333,76 @@ def run_tdseq(inp):
             evs.append({'ev': 'Set', 'how': how, 'op': step['op'], 'out': diff(cur, new)})
             cur, after = new, how
     return {'kind': 'tdseq', 'inp': copy.deepcopy(inp), 'events': evs}
+
+
+# ------------------------------------------------------------------------------
+# hand-over points: the raptor master
+#
+class _Registry(dict):
+    def dump(self, *a, **k):
+        pass
+
+
+def _make_master():
+    from radical.pilot.raptor.master import Master
+    m = Master.__new__(Master)
+    m._uid, m._pid = 'm', 'pilot.0000'
+    m._sbox, m._psbox, m._ssbox, m._rsbox = '/tmp/sbox', '/tmp/psbox', '/tmp/ssbox', '/tmp/rsbox'
+    m._log      = rpshim.NullLog()
+    m._reg      = _Registry()
+    m._workers  = dict()
+    m._session  = mock.Mock()
+    m._session._get_task_sandbox = lambda task, pilot: 'file://localhost/tmp/psbox/%s/' % task['uid']
+    m._req_put  = mock.Mock()
+    m.publish   = mock.Mock()
+    m.advance   = mock.Mock()
+    return m
+
+
+def run_hand(inp):
+    route = inp['route']
+    c   = _DescrCase(TD, TD_ATTRS, seq_payload, dict(inp['d']))
+    obj = c.obj
+    if c.req['loose']:
+        # values as read from a workload file
+        obj['timeout']     = '30'
+        obj['environment'] = {'A': 1}
+        if route != 'workers':
+            obj['arguments'] = [10, 'a']
+    if route == 'workers':
+        c.ignore = ('arguments', 'sandbox')      # set by the master, by contract
+    c.rest0 = c.rest(obj)
+    cur = c.proj(obj)
+    m   = _make_master()
+    uid = obj['uid']
+
+    copies, res, exc = [], 'ok', 'none'
+    try:
+        if route == 'workers':
+            m.submit_workers([obj])
+            copies.append(('verified', obj))
+            copies.append(('registry', m._reg['raptor.%s.cfg' % uid]))
+        else:
+            m.submit_tasks([obj])
+            copies.append(('verified', obj))
+        for call in m.publish.call_args_list:
+            if call[0][1].get('cmd') == 'insert':
+                copies.append(('insert', call[0][1]['arg']['description']))
+        for call in m.advance.call_args_list:
+            # (the Task constructor advances without publishing: not a hand-over)
+            if call[1].get('publish'):
+                for t in ru.as_list(call[0][0]):
+                    copies.append(('sent', t['description']))
+        for call in m._req_put.put.call_args_list:
+            for t in call[0][0]:
+                copies.append(('queued', t['description']))
+    except Exception as e:
+        res, exc, copies = 'raise', type(e).__name__, []
+
+    evs = [{'ev': 'Handover', 'res': res, 'exc': exc, 'copies': [w for w, _ in copies]}]
+    for which, d in copies:
+        evs.append({'ev': 'Copy', 'which': which, 'out': diff(cur, c.proj(d))})
+    return {'kind': 'hand', 'inp': copy.deepcopy(inp), 'events': evs}
 
 
 def run_pd(inp):
@@ -815,7 +890,7 @@ def run_xfunc_batch(inps):
 
 # ------------------------------------------------------------------------------
 RUNNERS = {'td': run_td, 'pd': run_pd, 'slots': run_slots, 'func': run_func,
-           'fseq': run_fseq, 'tdseq': run_tdseq}
+           'fseq': run_fseq, 'tdseq': run_tdseq, 'hand': run_hand}
 
 
 def run(kind, inp):
